@@ -507,7 +507,13 @@ class spawn(SpawnBase):
         # is available right now. But if a non-zero timeout is given
         # (possibly timeout=None), we call select() with a timeout.
         if (timeout != 0) and select(timeout):
-            return super(spawn, self).read_nonblocking(size)
+            try:
+                return super(spawn, self).read_nonblocking(size)
+            except EOF:
+                # Maybe the child is dead: update some attributes in that
+                # case, as the read that did not have to wait does above.
+                self.isalive()
+                raise
 
         if not self.isalive():
             # Some platforms, such as Irix, will claim that their
